@@ -144,6 +144,9 @@ func (p *ProjectRunner) runProcess(config *types.ProcessConfig) {
 		withIsMain(isMain),
 		withExtraArgs(extraArgs),
 	)
+	// a process that is started again begins a new life cycle: until it is launched it is Pending
+	// (not the terminal state of its previous run), so that a stop request can still prevent it
+	process.setState(types.ProcessStatePending)
 	p.addRunningProcess(process)
 	p.waitGroup.Add(1)
 	verif.Count("run:wg", 1)
